@@ -115,7 +115,9 @@ class PhasePredictor(QTable):
 
         span_ends = self["tmid"] + self["span"] / 2
         # Same time scale on both sides: .mjd is the reading in the object's own scale
-        index = np.searchsorted(span_ends.mjd, getattr(times, span_ends.scale).mjd)
+        ends = np.atleast_1d(span_ends.mjd)
+        order = np.argsort(ends)  # rows of a subset may be in any order
+        index = order[np.searchsorted(ends[order], getattr(times, span_ends.scale).mjd)]
         dt = (times - self["tmid"][index]).to_value(u.s)
         return index, dt
 
